@@ -2,6 +2,7 @@ package main
 
 import (
 	"fmt"
+	"os"
 	"sort"
 	"strings"
 
@@ -92,7 +93,36 @@ func idxWitnesses() []*Program {
 		rows = append(rows, fmt.Sprintf("(%d,5,NULL,1)", 2000+i), fmt.Sprintf("(%d,NULL,'x%d',%d)", 3000+i, i%7, 100+i))
 		rows2 = append(rows2, fmt.Sprintf("(%d,6,NULL,1)", 4000+i), fmt.Sprintf("(%d,NULL,NULL,%d)", 5000+i, 500+i))
 	}
-	return []*Program{{Mode: "idx", NSess: 2,
+	dropCol := func(ixs []IdxDef, drop string) *Program {
+		// the RIGHT side really drops a column stored BEFORE the indexed columns and deletes a row; the left side
+		// makes an unrelated edit; the indexes keep their tags, so the merge maintains them incrementally
+		return &Program{Mode: "idx", NSess: 2, Schema: &SchemaCase{Initial: ixs}, Stmts: []XStmt{
+			{SQL: "INSERT INTO t VALUES (1,1,'a',1),(2,2,'b',2),(3,3,'c',3),(4,4,'d',4)"},
+			{SQL: "CALL dolt_commit('-Am','rows')"},
+			{SQL: "CALL dolt_checkout('br')"}, {SQL: "CALL dolt_merge('main')"},
+			{SQL: "ALTER TABLE t DROP COLUMN " + drop}, {SQL: "DELETE FROM t WHERE pk=2"}, {SQL: "UPDATE t SET c2=9 WHERE pk=4"},
+			{SQL: "CALL dolt_commit('-Am','b')"},
+			{SQL: "CALL dolt_checkout('main')"}, {SQL: "UPDATE t SET c2=7 WHERE pk=3"}, {SQL: "CALL dolt_commit('-Am','m')"},
+			{SQL: "CALL dolt_merge('br')"}, {SQL: "CALL dolt_commit('-Am','merged')"},
+		}}
+	}
+	// KNOWN FINDING C25:merge-panics/unique-index-dropcolumn-rightdelete: UNIQUE index + the merged-in side dropped a
+	// column stored before the indexed column and deleted a row => dolt_merge panics (unchanged dolt)
+	knownPanic := &Program{Mode: "idx", NSess: 2, Schema: &SchemaCase{Initial: []IdxDef{{Name: "u2", Cols: []int{2}, Pfx: []int{0}, Unique: true}}}, Stmts: []XStmt{
+		{SQL: "INSERT INTO t VALUES (1,1,'a',1),(2,2,'b',2),(3,3,'c',3),(4,4,'d',4)"}, {SQL: "CALL dolt_commit('-Am','rows')"},
+		{SQL: "CALL dolt_checkout('br')"}, {SQL: "CALL dolt_merge('main')"},
+		{SQL: "ALTER TABLE t DROP COLUMN c0"}, {SQL: "DELETE FROM t WHERE pk=2"}, {SQL: "CALL dolt_commit('-Am','b')"},
+		{SQL: "CALL dolt_checkout('main')"}, {SQL: "UPDATE t SET c2=7 WHERE pk=3"}, {SQL: "CALL dolt_commit('-Am','m')"},
+		{SQL: "CALL dolt_merge('br')"},
+	}}
+	return []*Program{
+		knownPanic,
+		// (with an additional UNIQUE index on c2 this shape makes the UNCHANGED dolt panic in dolt_merge — reported,
+		// known finding, see knownPanic above)
+		dropCol([]IdxDef{{Name: "i12", Cols: []int{1, 2}, Pfx: []int{0, 0}}}, "c0"),
+		dropCol([]IdxDef{{Name: "i2", Cols: []int{2}, Pfx: []int{0}}}, "c1"),
+		dropCol([]IdxDef{{Name: "i1", Cols: []int{1}, Pfx: []int{0}}}, "c0"),
+		{Mode: "idx", NSess: 2,
 		Schema: &SchemaCase{Initial: []IdxDef{{Name: "u01", Cols: []int{0, 1}, Pfx: []int{0, 0}, Unique: true}, {Name: "u2", Cols: []int{2}, Pfx: []int{0}, Unique: true}}},
 		Stmts: []XStmt{
 			{SQL: "INSERT INTO t VALUES (1000,9,'seed',1)"},
@@ -306,10 +336,38 @@ func (h *H) runIdx(p *Program) {
 	s0.MustExec("CALL dolt_branch('br')")
 	seen := map[hash.Hash]bool{}
 	nontrivial := false
+	// shape of the known merge panic: a UNIQUE index exists, a column stored before an indexed column was really
+	// dropped, and a row was deleted (all earlier in this program)
+	hasUnique, droppedEarlier, deletedRow := false, false, false
+	for _, d := range p.Schema.Initial {
+		hasUnique = hasUnique || d.Unique
+	}
 	for idx, st := range p.Stmts {
 		res := ss[st.S].Exec(st.SQL)
 		class := res.Class()
 		rep.Hit("idx:class:" + class)
+		if res.Err == nil {
+			up := strings.ToUpper(st.SQL)
+			switch {
+			case strings.HasPrefix(up, "CREATE UNIQUE INDEX"):
+				hasUnique = true
+			case strings.HasPrefix(up, "ALTER TABLE T DROP COLUMN C0"), strings.HasPrefix(up, "ALTER TABLE T DROP COLUMN C1"):
+				droppedEarlier = true
+			case strings.HasPrefix(up, "DELETE FROM T"):
+				deletedRow = true
+			}
+		}
+		if prop == "C25" && res.Err != nil && strings.Contains(res.Err.Error(), "byte slice is not of expected size") &&
+			strings.HasPrefix(strings.ToUpper(st.SQL), "CALL DOLT_MERGE") && hasUnique && droppedEarlier && deletedRow {
+			rep.Hit("idx:known:merge-panics-unique-dropcolumn-rightdelete")
+			rep.Known("C25:merge-panics/unique-index-dropcolumn-rightdelete", fmt.Sprintf("stmt %d (%s) panics: %.160v", idx, st.SQL, res.Err), p)
+		} else if prop == "C25" && res.Err != nil && strings.Contains(strings.ToLower(res.Err.Error()), "panic") {
+			// maintaining the indexes through a merge / DML must never end in an internal panic
+			rep.Violate("C25:statement-panicked:"+strings.ToLower(strings.Fields(st.SQL)[0]), fmt.Sprintf("stmt %d (%s) failed with an internal panic: %.300v", idx, st.SQL, res.Err), p)
+		}
+		if os.Getenv("IDXDEBUG") != "" {
+			fmt.Fprintf(os.Stderr, "DBG stmt %d s%d %q class=%s rows=%v err=%v\n", idx, st.S, st.SQL, class, res.Lines(), res.Err)
+		}
 		fl := append(strings.Fields(st.SQL), "")
 		kw := strings.ToLower(strings.TrimSpace(fl[0] + " " + fl[1]))
 		if strings.HasPrefix(kw, "call") {
